@@ -257,40 +257,65 @@ def maskBits (w m : Nat) : Except Err Nat :=
   | none => .error .fuel
   | some (m', b) => if m' &&& (2 ^ (w - 1) - 1) ≠ 0 then .error .runtime else .ok b
 
-/-- `parse_cidr(addr, infer, allow_host)` (810-855) -/
-def parseCidr (s : Str) (infer allowHost : Bool) : Except Err (IP4 × Nat) :=
-  match splitOnN '/' 2 s with
-  | [a0] =>
-    if !infer then do
-      let a ← IP4.ofText a0
+/-- `parse_cidr`, text without a slash (828-839) -/
+def cidrPlain (a0 : Str) (infer allowHost : Bool) : Except Err (IP4 × Nat) :=
+  if !infer then do
+    let a ← IP4.ofText a0
+    let n ← cidrCheck 32 (a.toUnsigned false) allowHost 0
+    pure (a, n)
+  else do
+    let a ← IP4.ofText a0
+    let b := 32 - inferNetmask a
+    let m := (1 <<< b) - 1
+    if a.toUnsigned false &&& m = 0 then
+      let n ← cidrCheck 32 (a.toUnsigned false) allowHost b
+      pure (a, n)
+    else
       let n ← cidrCheck 32 (a.toUnsigned false) allowHost 0
       pure (a, n)
-    else do
-      let a ← IP4.ofText a0
-      let b := 32 - inferNetmask a
-      let m := (1 <<< b) - 1
-      if a.toUnsigned false &&& m = 0 then
-        let n ← cidrCheck 32 (a.toUnsigned false) allowHost b
-        pure (a, n)
-      else
-        let n ← cidrCheck 32 (a.toUnsigned false) allowHost 0
-        pure (a, n)
+
+/-- `parse_cidr`, `addr/len` once `int(len)` is `k` (841, 854-855) -/
+def cidrLen (a0 : Str) (k : Int) (allowHost : Bool) : Except Err (IP4 × Nat) :=
+  let wild : Int := 32 - k
+  if wild < 0 ∨ wild > 32 then .error .assertion else do
+    let a ← IP4.ofText a0
+    let n ← cidrCheck 32 (a.toUnsigned false) allowHost wild.toNat
+    pure (a, n)
+
+/-- `parse_cidr`, `addr/netmask` (843-853) -/
+def cidrMask (a0 a1 : Str) (allowHost : Bool) : Except Err (IP4 × Nat) := do
+  let m ← IP4.ofText a1
+  let b ← maskBits 32 (m.toUnsigned false)
+  let wild := 32 - b
+  let a ← IP4.ofText a0
+  let n ← cidrCheck 32 (a.toUnsigned false) allowHost wild
+  pure (a, n)
+
+/-- `parse_cidr(addr, infer, allow_host)` (810-855): `split('/', 2)`, then `int()` in a bare `try/except` -/
+def parseCidr (s : Str) (infer allowHost : Bool) : Except Err (IP4 × Nat) :=
+  match splitOnN '/' 2 s with
+  | [a0] => cidrPlain a0 infer allowHost
   | a0 :: a1 :: _ =>
     match pyInt 10 a1 with
-    | .ok k =>
-      let wild : Int := 32 - k
-      if wild < 0 ∨ wild > 32 then .error .assertion else do
-        let a ← IP4.ofText a0
-        let n ← cidrCheck 32 (a.toUnsigned false) allowHost wild.toNat
-        pure (a, n)
-    | .error _ => do                              -- bare `except:` → maybe a netmask
-      let m ← IP4.ofText a1
-      let b ← maskBits 32 (m.toUnsigned false)
-      let wild := 32 - b
-      let a ← IP4.ofText a0
-      let n ← cidrCheck 32 (a.toUnsigned false) allowHost wild
-      pure (a, n)
+    | .ok k => cidrLen a0 k allowHost
+    | .error _ => cidrMask a0 a1 allowHost          -- bare `except:` → maybe a netmask
   | [] => .error .index
+
+/-- `s and all(c in '0123456789' for c in s)` -/
+def isDecStr (s : Str) : Bool := !s.isEmpty && s.all fun c => decide (digitVal c < 10)
+
+/-- `parse_cidr` after the repair `fixes/C16_cidr.diff`: `split('/')` with at most two pieces; the part after the slash is a
+    prefix length only if it consists of decimal digits, otherwise a netmask -/
+def parseCidrS (s : Str) (infer allowHost : Bool) : Except Err (IP4 × Nat) :=
+  match splitOn '/' s with
+  | [a0] => cidrPlain a0 infer allowHost
+  | [a0, a1] =>
+    if isDecStr a1 then
+      match pyInt 10 a1 with
+      | .ok k => cidrLen a0 k allowHost
+      | .error e => .error e
+    else cidrMask a0 a1 allowHost
+  | _ => .error .runtime
 
 /-- `(self & ~((1 << (w-b)) - 1)) == n` (375, 687) on numbers; `b > w` is a negative shift count -/
 def inNetworkN (w a n b : Nat) : Except Err Bool :=
@@ -299,15 +324,17 @@ def inNetworkN (w a n b : Nat) : Except Err Bool :=
 /-- `IPAddr.inNetwork((n, b))` (371-375) -/
 def inNetwork (a n : IP4) (b : Nat) : Except Err Bool := inNetworkN 32 (a.toUnsigned false) (n.toUnsigned false) b
 /-- `IPAddr.inNetwork("net/bits")` (365-369): the text form goes through `parse_cidr` (infer = True) -/
-def inNetworkText (a : IP4) (net : Str) : Except Err Bool := do
-  let (n, b) ← parseCidr net true false
+def inNetworkTextWith (pc : Str → Bool → Bool → Except Err (IP4 × Nat)) (a : IP4) (net : Str) : Except Err Bool := do
+  let (n, b) ← pc net true false
   inNetwork a n b
+def inNetworkText (a : IP4) (net : Str) : Except Err Bool := inNetworkTextWith parseCidr a net
 
 /-- `get_network(netmask_or_bits)` (377-386); `arg` is `str(netmask_or_bits)` -/
-def getNetwork (a : IP4) (arg : Str) : Except Err (IP4 × Nat) := do
-  let (_, prefixLen) ← parseCidr ("255.255.255.255/".toList ++ arg) true true
+def getNetworkWith (pc : Str → Bool → Bool → Except Err (IP4 × Nat)) (a : IP4) (arg : Str) : Except Err (IP4 × Nat) := do
+  let (_, prefixLen) ← pc ("255.255.255.255/".toList ++ arg) true true
   let nm ← cidrToNetmask prefixLen
   pure (IP4.ofInt (a.toUnsigned false &&& nm.toUnsigned false) false, prefixLen)
+def getNetwork (a : IP4) (arg : Str) : Except Err (IP4 × Nat) := getNetworkWith parseCidr a arg
 
 /-! ## IPv6 -/
 
@@ -339,8 +366,9 @@ def parseGroups (addr : Str) : Except Err Bytes :=
     let o := p0 ++ List.replicate (8 - p0.length - p1.length) 0 ++ p1
     pure (groupBytes o)
 
-/-- `IPAddr6(str)` (475-524); with a dot in the text the last colon-separated field is an IPv4 dotted quad (478-487, 521-522) -/
-def parse6 (s : Str) : Except Err Bytes :=
+/-- `IPAddr6(str)` (475-524), the group parser `pg` being a parameter; with a dot in the text the last colon-separated
+    field is an IPv4 dotted quad (478-487, 521-522) -/
+def parse6With (pg : Str → Except Err Bytes) (s : Str) : Except Err Bytes :=
   if has '.' s then
     match rsplit1 ':' s with
     | none => .error .value                        -- `addr,ip4part = [one piece]`
@@ -348,10 +376,50 @@ def parse6 (s : Str) : Except Err Bytes :=
       if has '.' a then .error .runtime
       else if has ':' p then .error .runtime
       else do
-        let v ← parseGroups (a ++ [':', '0', ':', '0'])
+        let v ← pg (a ++ [':', '0', ':', '0'])
         let ip ← IP4.ofText p
         pure (v.take (v.length - 4) ++ ip.raw)
-  else parseGroups s
+  else pg s
+
+/-- `IPAddr6(str)` as the code stands -/
+def parse6 (s : Str) : Except Err Bytes := parse6With parseGroups s
+
+/-! ### the repaired text parser (`fixes/C16_ip6_text.diff`) -/
+
+/-- `0 < len(g) <= hi and all(c in '0123456789abcdefABCDEF' for c in g)` (with `lo = 1`) -/
+def isHexStr (lo hi : Nat) (g : Str) : Bool :=
+  decide (lo ≤ g.length) && decide (g.length ≤ hi) && g.all fun c => decide (digitVal c < 16)
+
+/-- `addr.partition('::')`: the text before and after the first `::`; `none` = no `::` -/
+def partitionDC : Str → Option (Str × Str)
+  | [] => none
+  | a :: t =>
+    match t with
+    | [] => none
+    | b :: r => if a = ':' ∧ b = ':' then some ([], r) else (partitionDC t).map fun p => (a :: p.1, p.2)
+
+/-- `side.split(':')` for a non-empty side, nothing for an empty one -/
+def sideGroups (side : Str) : List Str := if side.isEmpty then [] else splitOn ':' side
+
+/-- the validation the repair puts in place of the `count('::')` / `len(segs)` tests: at most one `::`, which stands for
+    at least one group, eight groups in total, one to four hex digits per group -/
+def guard6 (addr : Str) : Bool :=
+  match partitionDC addr with
+  | none => let gs := sideGroups addr; decide (gs.length = 8) && gs.all (isHexStr 1 4)
+  | some (l, r) =>
+    let gs := sideGroups l ++ sideGroups r
+    !(partitionDC r).isSome && decide (gs.length ≤ 7) && gs.all (isHexStr 1 4)
+
+/-- 489-518 after the repair -/
+def parseGroupsS (addr : Str) : Except Err Bytes :=
+  if !guard6 addr then .error .runtime
+  else do
+    let (p0, p1) ← parseSegs (splitOn ':' addr) false [] []
+    let o := p0 ++ List.replicate (8 - p0.length - p1.length) 0 ++ p1
+    pure (groupBytes o)
+
+/-- `IPAddr6(str)` after the repair -/
+def parse6S (s : Str) : Except Err Bytes := parse6With parseGroupsS s
 
 /-- `o = [lo | (hi<<8) ...]` (701-702) -/
 def groups6 : Bytes → List Nat
@@ -389,36 +457,57 @@ def cidrToNetmask6 (bits : Nat) : Except Err Bytes := do
   let v ← cidrMaskN 128 bits
   pure (fromNum6 v)
 
-/-- `IPAddr6.parse_cidr` (632-665) -/
-def parseCidr6 (s : Str) (allowHost : Bool) : Except Err (Bytes × Nat) :=
-  match splitOnN '/' 2 s with
-  | [a0] => do
-    let a ← parse6 a0
-    let n ← cidrCheck 128 (num6 a) allowHost 0
+def cidr6Plain (p6 : Str → Except Err Bytes) (a0 : Str) (allowHost : Bool) : Except Err (Bytes × Nat) := do
+  let a ← p6 a0
+  let n ← cidrCheck 128 (num6 a) allowHost 0
+  pure (a, n)
+
+def cidr6Len (p6 : Str → Except Err Bytes) (a0 : Str) (k : Int) (allowHost : Bool) : Except Err (Bytes × Nat) :=
+  let wild : Int := 128 - k
+  if wild < 0 ∨ wild > 128 then .error .assertion else do
+    let a ← p6 a0
+    let n ← cidrCheck 128 (num6 a) allowHost wild.toNat
     pure (a, n)
+
+def cidr6Mask (p6 : Str → Except Err Bytes) (a0 a1 : Str) (allowHost : Bool) : Except Err (Bytes × Nat) := do
+  let m ← p6 a1
+  let b ← maskBits 128 (num6 m)
+  let wild := 128 - b
+  let a ← p6 a0
+  let n ← cidrCheck 128 (num6 a) allowHost wild
+  pure (a, n)
+
+/-- `IPAddr6.parse_cidr` (632-665), the address parser `p6` being a parameter -/
+def parseCidr6With (p6 : Str → Except Err Bytes) (s : Str) (allowHost : Bool) : Except Err (Bytes × Nat) :=
+  match splitOnN '/' 2 s with
+  | [a0] => cidr6Plain p6 a0 allowHost
   | a0 :: a1 :: _ =>
     match pyInt 10 a1 with
-    | .ok k =>
-      let wild : Int := 128 - k
-      if wild < 0 ∨ wild > 128 then .error .assertion else do
-        let a ← parse6 a0
-        let n ← cidrCheck 128 (num6 a) allowHost wild.toNat
-        pure (a, n)
-    | .error _ => do
-      let m ← parse6 a1
-      let b ← maskBits 128 (num6 m)
-      let wild := 128 - b
-      let a ← parse6 a0
-      let n ← cidrCheck 128 (num6 a) allowHost wild
-      pure (a, n)
+    | .ok k => cidr6Len p6 a0 k allowHost
+    | .error _ => cidr6Mask p6 a0 a1 allowHost
   | [] => .error .index
+
+def parseCidr6 (s : Str) (allowHost : Bool) : Except Err (Bytes × Nat) := parseCidr6With parse6 s allowHost
+
+/-- `IPAddr6.parse_cidr` after `fixes/C16_cidr.diff` -/
+def parseCidr6SWith (p6 : Str → Except Err Bytes) (s : Str) (allowHost : Bool) : Except Err (Bytes × Nat) :=
+  match splitOn '/' s with
+  | [a0] => cidr6Plain p6 a0 allowHost
+  | [a0, a1] =>
+    if isDecStr a1 then
+      match pyInt 10 a1 with
+      | .ok k => cidr6Len p6 a0 k allowHost
+      | .error e => .error e
+    else cidr6Mask p6 a0 a1 allowHost
+  | _ => .error .runtime
 
 /-- `in_network((n, b))` (683-687) -/
 def inNetwork6 (a n : Bytes) (b : Nat) : Except Err Bool := inNetworkN 128 (num6 a) (num6 n) b
 /-- `in_network("net/bits")` (678-681) -/
-def inNetwork6Text (a : Bytes) (net : Str) : Except Err Bool := do
-  let (n, b) ← parseCidr6 net false
+def inNetwork6TextWith (pc : Str → Bool → Except Err (Bytes × Nat)) (a : Bytes) (net : Str) : Except Err Bool := do
+  let (n, b) ← pc net false
   inNetwork6 a n b
+def inNetwork6Text (a : Bytes) (net : Str) : Except Err Bool := inNetwork6TextWith parseCidr6 a net
 
 /-- `is_ipv4_mapped` (593-595) = `in_network('::ffff:0:0/96')` -/
 def isV4Mapped (a : Bytes) : Bool :=
@@ -502,10 +591,34 @@ def ethOfText (s : Str) : Except Err Bytes :=
       ethBytesOfHex parts.flatten
   else .error .runtime
 
+/-- `EthAddr(str)` after `fixes/C16_eth_text.diff`: twelve bare digits only when there is no colon, the loose form only
+    with six groups of one or two hex digits, and in every form the twelve digits must be hex digits -/
+def ethOfTextS (s : Str) : Except Err Bytes :=
+  let n := s.length
+  if n = 6 then .ok (s.map fun c => UInt8.ofNat c.toNat)
+  else if n = 17 ∨ n = 12 ∨ s.count ':' = 5 then do
+    let hex12 ←
+      if n = 17 then
+        let seps := [2, 5, 8, 11, 14].filterMap fun i => s[i]?
+        if seps ≠ [':', ':', ':', ':', ':'] ∧ seps ≠ ['-', '-', '-', '-', '-'] then .error .runtime
+        else pure ((List.range 6).flatMap fun x => slice s (x * 3) (x * 3 + 2))
+      else if n = 12 ∧ has ':' s = false then pure s
+      else
+        let groups := splitOn ':' s
+        if groups.length ≠ 6 ∨ groups.all (isHexStr 1 2) = false then .error .runtime
+        else do
+          let parts ← groups.mapM fun x => (pyInt 16 x).map fmt02x
+          pure parts.flatten
+    if hex12.all (fun c => decide (digitVal c < 16)) then ethBytesOfHex hex12 else .error .runtime
+  else .error .runtime
+
 /-- `EthAddr(list / tuple / bytearray)` (134-139): `bytes(addr)` — every element must be in `range(256)` (ValueError
     otherwise); the length is **not** checked -/
 def ethOfSeq (l : List Int) : Except Err Bytes :=
   l.mapM fun v => if v < 0 ∨ v > 255 then .error .value else .ok (UInt8.ofNat v.toNat)
+
+/-- the same after `fixes/C16_eth_seq.diff`: exactly six items -/
+def ethOfSeqS (l : List Int) : Except Err Bytes := if l.length ≠ 6 then .error .runtime else ethOfSeq l
 
 /-- `to_str(separator)` (237) -/
 def ethToStr (sep : Char) (b : Bytes) : Str := joinWith sep (b.map fun x => hex2 x.toNat)
